@@ -100,6 +100,14 @@ Definition existing (s : dst) (mac cid : N) (relayed : bool) : option lease :=
             else None
   end.
 
+(* the lease came from the circuit-ID index and belongs to another MAC *)
+Definition via_cid (s : dst) (mac cid : N) (relayed : bool) : bool :=
+  match aget mac (leases s) with
+  | Some _ => false
+  | None => relayed && negb (cid =? 0) &&
+            match aget cid (bycid s) with Some p => negb (fst p =? mac) | None => false end
+  end.
+
 (* Pool.Allocate *)
 Definition pool_allocate (s : dst) (mac : N) : option (N * dst) :=
   match aget mac (alloc s) with
@@ -245,7 +253,12 @@ Definition dstep (c : dcfg) (s : dst) (o : dop) : dst * (N * N * list (N * N)) *
                      stops := stops s1 |} in
         (s2, (2, ip, if isnew && c_radius c then [(1, sid)] else []), []) in
       match ex with
-      | Some e => if l_ip e =? ip then go s false else (s, (3, 0, []), [])
+      | Some e =>
+          if l_ip e =? ip
+          then (* 1605: the "existing lease" is another MAC's, found through the circuit-ID index (C02 K02a):
+                  two leases now share one address and one RADIUS session id *)
+               let '(s2, r, mk) := go s false in (s2, r, if via_cid s mac cid relayed then 1605 :: mk else mk)
+          else (s, (3, 0, []), [])
       | None =>
           if negb ((c_lo c <=? ip) && (ip <=? c_hi c)) then (s, (3, 0, []), [])
           else match pool_reserve s mac ip with
